@@ -399,6 +399,11 @@ def gen_op(r, ref, malformed):
     if k == 'sl':
         return (k, inl(), q8(r))
     if k in ('aq', 'sq'):
+        if ref.quad and r.random() < .2:
+            # leaves an interaction (or a self-loop) in the model with bias exactly 0: a cancelling add from either side / set to 0
+            t = tuple(r.choice(sorted(ref.quad, key=lambda s: sorted(map(lab, s)))))
+            u, v = (t[0], t[-1]) if r.random() < .5 else (t[-1], t[0])
+            return (k, u, v, F(-ref.quad[pkey(u, v)]) if k == 'aq' else F(0))
         u = inl()
         v = u if r.random() < .15 else inl()
         return (k, u, v, q8(r))
